@@ -48,6 +48,15 @@ static bool check_acc(unsigned idx, unsigned off, uint64_t raw) {
     bool ok = true;
     if (ret != s.blk + off + nb) ok = F("set-return", "set did not return the address just past the stored octets");
     if (memcmp(s.blk + off, expect, nb) != 0) ok = F("set-octets", "stored octets " + vp::hex(s.blk + off, nb) + " expected " + vp::hex(expect, nb));
+    // what the target held before must not matter: all zeros, the image of the value with its top bit flipped (for floats: the same
+    // magnitude with the other sign, e.g. +0.0 under -0.0), the value itself
+    if (a.width > 24 || (raw & 3) == 0)
+        for (int pre = 0; pre < 3 && ok; pre++) {
+            for (unsigned i = 0; i < nb; i++) s.blk[off + i] = pre == 0 ? 0x00 : expect[i];
+            if (pre == 1) s.blk[off + (a.order == 'b' ? 0 : nb - 1)] ^= 0x80;
+            a.set(s.blk + off, canon);
+            if (memcmp(s.blk + off, expect, nb) != 0) ok = F("set-octets-over-related-content", vp::fmt("target held %s before; stored octets ", pre == 0 ? "zeros" : pre == 1 ? "the value with its top bit flipped" : "the value itself") + vp::hex(s.blk + off, nb) + " expected " + vp::hex(expect, nb));
+        }
     for (unsigned i = 0; i < off; i++) if (s.blk[i] != fillb) { ok = F("set-neighbour", "octet before the value changed"); break; }
     // load from the expected image (independent of what set wrote)
     memcpy(s.blk + off, expect, nb);
